@@ -8,7 +8,7 @@ for m in mutants/*.patch; do
     if [ "$exp" = "silent" ]; then
       if echo "$out" | grep -q "^OK"; then v=ok; else v="FALSE-ALARM"; fi
     else
-      if echo "$out" | grep "^violated" | grep -qF -- "$exp"; then v=ok; elif echo "$out" | grep -q "^violated"; then v="other-key"; elif echo "$out" | grep -q "does not apply\|FAILED"; then v="NO-APPLY"; else v="MISSED"; fi
+      if echo "$out" | grep -E "^(violated|undischarged)" | grep -qF -- "$exp"; then v=ok; elif echo "$out" | grep -qE "^(violated|undischarged)"; then v="other-key"; elif echo "$out" | grep -q "does not apply\|FAILED"; then v="NO-APPLY"; else v="MISSED"; fi
     fi
     echo "$v  $(basename $m .patch)  $p  [$exp]"
   done
